@@ -24,22 +24,41 @@ Lemma stp_ival c : kd c <> Btc -> stp c = ival c.
 Proof. unfold stp. destruct (kd c); congruence. Qed.
 
 Lemma aligned_fields w : wiring_aligned w = true ->
-  reads_store w = true /\ head_if_nil w = true /\ aligns_to_interval w = true /\ passes_start_to_chain w = true.
+  reads_store w = true /\ head_if_nil w = true /\ align_arg w = AlignInterval /\ aligns_known w = true
+  /\ aligns_head w = true /\ chain_arg w = ChainStart.
 Proof.
-  unfold wiring_aligned. intros H. repeat (apply andb_true_iff in H as [H ?]). auto.
+  unfold wiring_aligned, aligns_to_interval, passes_start_to_chain. intros H.
+  repeat (apply andb_true_iff in H as [H ?]).
+  destruct (align_arg w); try discriminate. destruct (chain_arg w); try discriminate.
+  match goal with Hk : aligns_known w && aligns_head w = true |- _ => apply andb_true_iff in Hk as [? ?] end.
+  auto 10.
 Qed.
 
+Lemma aligned_not_dead w c : wiring_aligned w = true -> align_dead w c = false.
+Proof. intros Ha. destruct (aligned_fields w Ha) as (_ & _ & Hal & _). unfold align_dead. rewrite Hal. reflexivity. Qed.
+
+Lemma align_by_stp w c v :
+  wf_cfg c = true -> wiring_aligned w = true -> align_by w c v mod stp c = 0.
+Proof.
+  intros Hwf Ha. destruct (aligned_fields w Ha) as (_ & _ & Hal & _). unfold align_by. rewrite Hal.
+  destruct (kd c) eqn:Hk.
+  - rewrite stp_ival by congruence. apply align_divides, ival_pos; exact Hwf.
+  - rewrite stp_ival by congruence. apply align_divides, ival_pos; exact Hwf.
+  - rewrite (stp_btc c Hk). apply Z.mod_1_r.
+Qed.
+
+(* whatever reaches the chain object - a start known beforehand or the head - is a multiple of the step *)
 Lemma to_chain_AI w c v :
   wf_cfg c = true -> aligned_setup w c ->
-  match to_chain w (app_align w c v) with Some b => b mod stp c = 0 | None => kd c = Btc end.
+  match to_chain w c (Some (app_align w c v)) with Some b => b mod stp c = 0 | None => kd c = Btc end
+  /\ match to_chain w c (Some (app_align_head w c v)) with Some b => b mod stp c = 0 | None => kd c = Btc end
+  /\ match to_chain w c None with Some b => b mod stp c = 0 | None => True end.
 Proof.
   intros Hwf [Hb|Ha].
-  - rewrite (stp_btc c Hb). unfold to_chain. destruct (passes_start_to_chain w); [apply Z.mod_1_r|exact Hb].
-  - destruct (aligned_fields w Ha) as (_ & _ & Hal & Hp). unfold to_chain, app_align. rewrite Hp, Hal.
-    destruct (kd c) eqn:Hk.
-    + rewrite stp_ival by congruence. apply align_divides, ival_pos; exact Hwf.
-    + rewrite stp_ival by congruence. apply align_divides, ival_pos; exact Hwf.
-    + rewrite (stp_btc c Hk). apply Z.mod_1_r.
+  - rewrite (stp_btc c Hb). unfold to_chain.
+    destruct (chain_arg w); repeat split; try apply Z.mod_1_r; try exact Hb; exact I.
+  - destruct (aligned_fields w Ha) as (_ & _ & _ & Hk & Hh & Hp). unfold to_chain, app_align, app_align_head.
+    rewrite Hp, Hk, Hh. repeat split; try (apply align_by_stp; assumption).
 Qed.
 
 Lemma reboot_AI w c stored :
@@ -47,12 +66,14 @@ Lemma reboot_AI w c stored :
 Proof.
   intros Hwf Hs. unfold reboot, boot.
   destruct (if reads_store w then get_start_block stored c else None) as [v|] eqn:Hv.
-  - cbn. unfold AI; cbn. pose proof (to_chain_AI w c v Hwf Hs) as H.
-    destruct (to_chain w (app_align w c v)); [exact H|left; exact H].
+  - destruct (aligns_known w && align_dead w c); [unfold AI; cbn; auto|].
+    cbn. unfold AI; cbn. destruct (to_chain_AI w c v Hwf Hs) as (H & _ & _).
+    destruct (to_chain w c (Some (app_align w c v))); [exact H|left; exact H].
   - destruct (head_if_nil w) eqn:Hh; [unfold AI; cbn; auto|].
-    destruct (aligns_to_interval w) eqn:Hal; [unfold AI; cbn; auto|].
-    unfold AI; cbn. left. destruct Hs as [Hb|Ha]; [exact Hb|].
-    destruct (aligned_fields w Ha) as (_ & Hh' & _). congruence.
+    destruct (aligns_known w) eqn:Hal; [unfold AI; cbn; auto|].
+    unfold AI; cbn. destruct Hs as [Hb|Ha].
+    + destruct (to_chain w c None) eqn:Ht; [|left; exact Hb]. rewrite (stp_btc c Hb). apply Z.mod_1_r.
+    + destruct (aligned_fields w Ha) as (_ & Hh' & _). congruence.
 Qed.
 
 Lemma reboot_outs w c stored o : In o (snd (reboot w c stored)) -> exists cur, o = OStart cur.
@@ -78,9 +99,10 @@ Proof.
   - (* Head *)
     destruct (s_pc s) eqn:Hp; try exact Hstay.
     + (* PBoot *)
+      destruct (aligns_head w && align_dead w c); [split; [unfold AI; cbn; auto|intros o []]|].
       cbn. split; [|intros o [<-|[]]; exact I]. unfold AI; cbn.
-      pose proof (to_chain_AI w c h Hwf Hs) as H.
-      destruct (to_chain w (app_align w c h)); [exact H|left; exact H].
+      destruct (to_chain_AI w c h Hwf Hs) as (_ & H & _).
+      destruct (to_chain w c (Some (app_align_head w c h))); [exact H|left; exact H].
     + (* PPoll *)
       assert (Hb : (match s_cur s with Some b => b | None => h end) mod stp c = 0).
       { unfold AI in HA. destruct (s_cur s) as [b|]; [exact HA|].
@@ -116,6 +138,48 @@ Proof.
   intros Hwf Hs Hin. unfold run in Hin. apply in_app_or in Hin as [Hin|Hin].
   - apply reboot_outs in Hin as [cur Heq]. discriminate.
   - apply (run_from_cells w c _ evs Hwf Hs (reboot_AI w c stored0 Hwf Hs) _ Hin).
+Qed.
+
+(* what the cells theorem needs of the wiring: every start value is aligned, and to the block interval *)
+Lemma wiring_aligned_spec w : wiring_aligned w = true <->
+  (reads_store w = true /\ head_if_nil w = true /\ align_arg w = AlignInterval /\ aligns_known w = true
+   /\ aligns_head w = true /\ chain_arg w = ChainStart /\ steps_by_interval w = true).
+Proof.
+  split.
+  - intros H. destruct (aligned_fields w H) as (A & B & C & D & E & F). repeat split; try assumption.
+    unfold wiring_aligned in H. apply andb_true_iff in H as [_ H]. exact H.
+  - intros (A & B & C & D & E & F & G). unfold wiring_aligned, aligns_to_interval, passes_start_to_chain.
+    rewrite A, B, C, D, E, F, G. reflexivity.
+Qed.
+
+(* app.Run as it would be with the start block aligned to the confirmation depth (the helper's
+   parameter is called blockConfirmations) while the listener steps by the block interval *)
+Definition conf_aligned_wiring : wiring :=
+  {| reads_store := true; head_if_nil := true; align_arg := AlignConfirmations; aligns_known := true;
+     aligns_head := true; chain_arg := ChainStart; steps_by_interval := true |}.
+
+(* ... scans ranges that are no cells: interval 5, 3 confirmations, configured start 103 -> [102, 106] *)
+Lemma conf_aligned_refuted :
+  exists c stored0 evs k s e ok,
+    wf_cfg c = true /\ In (OHandle k s e ok) (run conf_aligned_wiring c stored0 evs) /\ s mod stp c <> 0.
+Proof.
+  exists {| kd := Evm; ival := 5; conf := 3; nh := 1; cstart := 103; latest := false; fresh := false |},
+         None, [Head 200; Handler true], 0%nat, 102, 106, true.
+  split; [reflexivity|]. split; [vm_compute; auto|vm_compute; discriminate].
+Qed.
+
+(* the same when only a start block known beforehand is aligned and the head substituted for nil is not *)
+Definition known_only_wiring : wiring :=
+  {| reads_store := true; head_if_nil := true; align_arg := AlignInterval; aligns_known := true;
+     aligns_head := false; chain_arg := ChainStart; steps_by_interval := true |}.
+
+Lemma known_only_refuted :
+  exists c stored0 evs k s e ok,
+    wf_cfg c = true /\ In (OHandle k s e ok) (run known_only_wiring c stored0 evs) /\ s mod stp c <> 0.
+Proof.
+  exists {| kd := Evm; ival := 5; conf := 3; nh := 1; cstart := 0; latest := true; fresh := false |},
+         None, [Head 103; Head 200; Handler true], 0%nat, 103, 107, true.
+  split; [reflexivity|]. split; [vm_compute; auto|vm_compute; discriminate].
 Qed.
 
 Lemma cell_unique i s b : 1 <= i -> s mod i = 0 -> s <= b <= s + i - 1 -> s = align b i.
@@ -543,4 +607,228 @@ Lemma bexec_ok_model props n : bexec_ok props (repeat (bexec_spec props) n) = tr
 Proof.
   unfold bexec_ok. apply forallb_forall. intros x Hx. apply repeat_spec in Hx. subst.
   apply bgroups_eqb_eq. reflexivity.
+Qed.
+
+(* ---------------------------------------------------------------------------------------------
+   Part G: the executed-status look-ups of one relayer fail - the sessions it starts are those of its
+   fault-free peers, or none. *)
+
+Section LookupProofs.
+  Context {A : Type}.
+
+  Lemma pending_all_or_nothing (d : list (A * bool)) mask :
+    pending_of (mark d mask) = None \/ pending_of (mark d mask) = pending_of (mark d []).
+  Proof.
+    revert mask; induction d as [|[a ex] r IH]; intros mask; [right; reflexivity|].
+    destruct mask as [|f m]; [right; reflexivity|]. cbn [mark tl pending_of].
+    destruct f; [left; reflexivity|].
+    destruct (IH m) as [H|H]; rewrite H; [left; reflexivity|right; reflexivity].
+  Qed.
+
+  Lemma pending_clean (d : list (A * bool)) :
+    pending_of (mark d []) = Some (map fst (filter (fun x => negb (snd x)) d)).
+  Proof.
+    induction d as [|[a ex] r IH]; [reflexivity|]. cbn [mark tl pending_of]. rewrite IH.
+    destruct ex; reflexivity.
+  Qed.
+
+  (* a mask without a fault at any position of the delivery changes nothing *)
+  Lemma pending_no_fault (d : list (A * bool)) mask :
+    pending_of (mark d mask) <> None -> pending_of (mark d mask) = pending_of (mark d []).
+  Proof. intros H. destruct (pending_all_or_nothing d mask); [contradiction|assumption]. Qed.
+End LookupProofs.
+
+Lemma evm_exec_all_or_nothing mid cap tg d mask :
+  evm_exec mid cap tg (mark d mask) = [] \/ evm_exec mid cap tg (mark d mask) = evm_exec mid cap tg (mark d []).
+Proof.
+  unfold evm_exec. destruct (pending_all_or_nothing d mask) as [H|H]; rewrite H; [left|right]; reflexivity.
+Qed.
+
+Lemma sub_exec_all_or_nothing mid d mask :
+  sub_exec mid (mark d mask) = [] \/ sub_exec mid (mark d mask) = sub_exec mid (mark d []).
+Proof.
+  unfold sub_exec. destruct (pending_all_or_nothing d mask) as [H|H]; rewrite H; [left|right]; reflexivity.
+Qed.
+
+Lemma btc_exec_all_or_nothing d mask :
+  btc_exec (mark d mask) = [] \/ btc_exec (mark d mask) = btc_exec (mark d []).
+Proof.
+  unfold btc_exec. destruct (pending_all_or_nothing d mask) as [H|H]; rewrite H; [left|right]; reflexivity.
+Qed.
+
+(* the batches are consecutive segments of the pending proposals *)
+Lemma evm_pack_from_concat cap tg ps done cur gas :
+  List.concat (evm_pack_from cap tg ps done cur gas) = List.concat (rev done) ++ cur ++ map fst ps.
+Proof.
+  revert done cur gas; induction ps as [|p r IH]; intros done cur gas; cbn [evm_pack_from map].
+  - cbn [rev]. rewrite concat_app. cbn. rewrite !app_nil_r. reflexivity.
+  - destruct (cap <=? w64 (gas + evm_prop_gas tg p))%N; rewrite IH.
+    + cbn [rev]. rewrite concat_app. cbn. rewrite app_nil_r, <- app_assoc. reflexivity.
+    + rewrite <- app_assoc. reflexivity.
+Qed.
+
+Lemma evm_pack_concat cap tg ps : List.concat (evm_pack cap tg ps) = map fst ps.
+Proof. unfold evm_pack. rewrite evm_pack_from_concat. reflexivity. Qed.
+
+Lemma NoDup_map_filter {X Y : Type} (f : X -> Y) (p : X -> bool) l :
+  NoDup (map f l) -> NoDup (map f (filter p l)).
+Proof.
+  induction l as [|x l IH]; cbn; intros H; [constructor|].
+  inversion H as [|? ? Hn Hd]; subst. destruct (p x); cbn; [|apply IH; exact Hd].
+  constructor; [|apply IH; exact Hd].
+  intros Hin. apply Hn. apply in_map_iff in Hin as [y [Hy Hin]]. apply filter_In in Hin as [Hin _].
+  rewrite <- Hy. apply in_map. exact Hin.
+Qed.
+
+Lemma nodup_concat_nth {X : Type} (l : list (list X)) i j a b n :
+  NoDup (List.concat l) -> nth_error l i = Some a -> nth_error l j = Some b -> In n a -> In n b -> i = j.
+Proof.
+  revert i j; induction l as [|x l IH]; intros i j Hnd Hi Hj Ha Hb; [destruct i; discriminate|].
+  cbn in Hnd.
+  assert (Hsplit : NoDup x /\ NoDup (List.concat l) /\ forall y, In y x -> ~ In y (List.concat l)).
+  { clear -Hnd. induction x as [|y x IHx]; cbn in *.
+    - split; [constructor|]. split; [exact Hnd|]. intros y [].
+    - inversion Hnd as [|? ? Hn Hd]; subst. destruct (IHx Hd) as (A & B & C).
+      split; [constructor; [|exact A]; intros Hy; apply Hn; apply in_or_app; left; exact Hy|].
+      split; [exact B|]. intros z [<-|Hz]; [intros Hz; apply Hn; apply in_or_app; right; exact Hz|apply C; exact Hz]. }
+  destruct Hsplit as (_ & Hl & Hdisj).
+  assert (Hin : forall k c, nth_error l k = Some c -> In n c -> In n (List.concat l)).
+  { intros k c Hk Hc. apply in_concat. exists c. split; [eapply nth_error_In; exact Hk|exact Hc]. }
+  destruct i as [|i], j as [|j]; cbn in Hi, Hj.
+  - reflexivity.
+  - inversion Hi; subst. exfalso. apply (Hdisj n Ha). eapply Hin; eauto.
+  - inversion Hj; subst. exfalso. apply (Hdisj n Hb). eapply Hin; eauto.
+  - f_equal. eapply IH; eauto.
+Qed.
+
+(* two relayers, whatever look-ups fail on either: a deposit that both sign is signed with the same
+   co-members under the same session id *)
+Lemma evm_exec_same_session mid cap tg d m1 m2 s1 s2 n :
+  NoDup (map (fun x => fst (fst x)) d) ->
+  In s1 (evm_exec mid cap tg (mark d m1)) -> In s2 (evm_exec mid cap tg (mark d m2)) ->
+  In n (fst s1) -> In n (fst s2) -> s1 = s2.
+Proof.
+  intros Hnd H1 H2 Hn1 Hn2.
+  assert (Hclean : forall m s, In s (evm_exec mid cap tg (mark d m)) -> In s (evm_exec mid cap tg (mark d []))).
+  { intros m s Hs. destruct (evm_exec_all_or_nothing mid cap tg d m) as [H|H]; rewrite H in Hs; [contradiction|exact Hs]. }
+  apply Hclean in H1. apply Hclean in H2. clear Hclean.
+  unfold evm_exec in H1, H2. rewrite pending_clean in H1, H2.
+  set (l := map fst (filter (fun x => negb (snd x)) d)) in *.
+  assert (Hl : NoDup (List.concat (evm_pack cap tg l))).
+  { rewrite evm_pack_concat. unfold l. rewrite map_map.
+    apply (NoDup_map_filter (fun x => fst (fst x))). exact Hnd. }
+  destruct s1 as [ms1 sid1], s2 as [ms2 sid2]. cbn in Hn1, Hn2.
+  apply evm_sessions_position in H1 as (k1 & Hk1 & _ & ->).
+  apply evm_sessions_position in H2 as (k2 & Hk2 & _ & ->).
+  assert (k1 = k2) by (eapply nodup_concat_nth; eauto). subst k2.
+  rewrite Hk1 in Hk2. inversion Hk2; subst. reflexivity.
+Qed.
+
+Lemma sub_exec_same_session mid d m1 m2 s1 s2 :
+  In s1 (sub_exec mid (mark d m1)) -> In s2 (sub_exec mid (mark d m2)) -> s1 = s2.
+Proof.
+  intros H1 H2.
+  assert (Hclean : forall m s, In s (sub_exec mid (mark d m)) -> In s (sub_exec mid (mark d []))).
+  { intros m s Hs. destruct (sub_exec_all_or_nothing mid d m) as [H|H]; rewrite H in Hs; [contradiction|exact Hs]. }
+  apply Hclean in H1. apply Hclean in H2. unfold sub_exec in H1, H2.
+  destruct (pending_of (mark d [])) as [[|x l]|]; try contradiction.
+  destruct H1 as [<-|[]]. destruct H2 as [<-|[]]. reflexivity.
+Qed.
+
+Lemma btc_exec_same_group d m1 m2 g1 g2 n :
+  NoDup (map (fun x => fst (fst x)) d) ->
+  In g1 (btc_exec (mark d m1)) -> In g2 (btc_exec (mark d m2)) ->
+  In n (fst g1) -> In n (fst g2) -> g1 = g2.
+Proof.
+  intros Hnd H1 H2 Hn1 Hn2.
+  assert (Hclean : forall m s, In s (btc_exec (mark d m)) -> In s (btc_exec (mark d []))).
+  { intros m s Hs. destruct (btc_exec_all_or_nothing d m) as [H|H]; rewrite H in Hs; [contradiction|exact Hs]. }
+  apply Hclean in H1. apply Hclean in H2. clear Hclean.
+  unfold btc_exec in H1, H2. rewrite pending_clean in H1, H2.
+  set (l := map fst (filter (fun x => negb (snd x)) d)) in *.
+  assert (Hl : NoDup (map fst l)).
+  { unfold l. rewrite map_map. apply (NoDup_map_filter (fun x => fst (fst x))). exact Hnd. }
+  destruct g1 as [ms1 r1], g2 as [ms2 r2]. cbn in Hn1, Hn2.
+  apply bexec_spec_in in H1 as (rid1 & -> & -> & _). apply bexec_spec_in in H2 as (rid2 & -> & -> & _).
+  assert (Hr : forall rid, In n (map fst (for_dest (@snd N N) rid l)) -> In (n, rid) l).
+  { intros rid Hin. apply in_map_iff in Hin as [[n' r'] [Hf Hin]]. cbn in Hf. subst n'.
+    unfold for_dest in Hin. apply filter_In in Hin as [Hin Hr]. cbn in Hr. apply N.eqb_eq in Hr. subst r'. exact Hin. }
+  apply Hr in Hn1. apply Hr in Hn2.
+  assert (rid1 = rid2).
+  { clear -Hl Hn1 Hn2. induction l as [|[a b] l IH]; [contradiction|]. cbn in Hl.
+    inversion Hl as [|? ? Hnotin Hl']; subst.
+    destruct Hn1 as [H1|H1], Hn2 as [H2|H2].
+    - congruence.
+    - inversion H1; subst. exfalso. apply Hnotin. apply (in_map fst) in H2. exact H2.
+    - inversion H2; subst. exfalso. apply Hnotin. apply (in_map fst) in H1. exact H1.
+    - apply IH; assumption. }
+  subst. reflexivity.
+Qed.
+
+Lemma sess1_eqb_eq a b : sess1_eqb a b = true <-> a = b.
+Proof.
+  unfold sess1_eqb. destruct a as [m s], b as [m' s']. cbn. rewrite andb_true_iff, nl_eqb_eq, sl_eqb_eq.
+  split; [intros [-> ->]; reflexivity|intros H; inversion H; auto].
+Qed.
+
+Lemma bgroup1_eqb_eq a b : bgroup1_eqb a b = true <-> a = b.
+Proof.
+  unfold bgroup1_eqb. destruct a as [m r], b as [m' r']. cbn. rewrite andb_true_iff, nl_eqb_eq. split.
+  - intros [-> H]. destruct r, r'; try discriminate; [apply N.eqb_eq in H; subst|]; reflexivity.
+  - intros H; inversion H; subst. split; [reflexivity|]. destruct r'; [apply N.eqb_refl|reflexivity].
+Qed.
+
+Lemma faulty_ok_sound {X : Type} (eqb : X -> X -> bool) ref runs :
+  (forall a b, eqb a b = true -> a = b) ->
+  faulty_ok eqb ref runs = true -> forall run s, In run runs -> In s run -> In s ref.
+Proof.
+  intros Heq H run s Hrun Hs. unfold faulty_ok in H. rewrite forallb_forall in H.
+  specialize (H run Hrun). rewrite forallb_forall in H. specialize (H s Hs).
+  apply existsb_exists in H as [x [Hx Hxs]]. apply Heq in Hxs. subst. exact Hx.
+Qed.
+
+Lemma faulty_ok_all_or_nothing {X : Type} (eqb : X -> X -> bool) ref runs :
+  (forall a, eqb a a = true) ->
+  (forall run, In run runs -> run = [] \/ run = ref) -> faulty_ok eqb ref runs = true.
+Proof.
+  intros Hrefl H. unfold faulty_ok. apply forallb_forall. intros run Hrun.
+  destruct (H run Hrun) as [->| ->]; [reflexivity|].
+  apply forallb_forall. intros s Hs. apply existsb_exists. exists s. split; [exact Hs|apply Hrefl].
+Qed.
+
+(* the judge accepts the model, whatever look-ups fail on however many relayers *)
+Lemma faulty_ok_evm_model mid cap tg d masks :
+  faulty_ok sess1_eqb (evm_exec mid cap tg (mark d [])) (map (fun m => evm_exec mid cap tg (mark d m)) masks) = true.
+Proof.
+  apply faulty_ok_all_or_nothing; [intros a; apply sess1_eqb_eq; reflexivity|].
+  intros run Hrun. apply in_map_iff in Hrun as [m [<- _]]. apply evm_exec_all_or_nothing.
+Qed.
+
+Lemma faulty_ok_sub_model mid d masks :
+  faulty_ok sess1_eqb (sub_exec mid (mark d [])) (map (fun m => sub_exec mid (mark d m)) masks) = true.
+Proof.
+  apply faulty_ok_all_or_nothing; [intros a; apply sess1_eqb_eq; reflexivity|].
+  intros run Hrun. apply in_map_iff in Hrun as [m [<- _]]. apply sub_exec_all_or_nothing.
+Qed.
+
+Lemma faulty_ok_btc_model d masks :
+  faulty_ok bgroup1_eqb (btc_exec (mark d [])) (map (fun m => btc_exec (mark d m)) masks) = true.
+Proof.
+  apply faulty_ok_all_or_nothing; [intros a; apply bgroup1_eqb_eq; reflexivity|].
+  intros run Hrun. apply in_map_iff in Hrun as [m [<- _]]. apply btc_exec_all_or_nothing.
+Qed.
+
+(* skipping the proposal whose look-up failed: the deposits after it move to other batches.  Four
+   proposals of gas 100 under a cap of 250 (two per batch); the look-up of the second one fails:
+   deposit 3 is signed under <mid>-0 with deposit 1 instead of under <mid>-1 with deposit 4. *)
+Lemma skip_evm_exec_refuted :
+  exists mid cap tg d mask,
+    NoDup (map (fun x => fst (fst x)) d) /\
+    faulty_ok sess1_eqb (evm_exec mid cap tg (mark d [])) [skip_evm_exec mid cap tg (mark d mask)] = false.
+Proof.
+  exists "1-2-100-104"%string, 250%N, 100%N,
+    [((1%N, None), false); ((2%N, None), false); ((3%N, None), false); ((4%N, None), false)],
+    [false; true].
+  split; [|vm_compute; reflexivity].
+  cbn. repeat constructor; cbn; intuition discriminate.
 Qed.
